@@ -4,5 +4,7 @@ WT=$1
 for d in $WT/out/C*-*/; do
   name=$(basename $d); id=${name%-*}
   echo "##### $name"
-  /verif/tools/eval_seed.sh $id $WT $d/patch.diff 2>&1 | grep -v "^checks.py" | cut -c1-260 | grep -E "pinned tests|VIOLATION|^  C|quick:|check-exit|PATCH|harness-failure|KNOWN" | head -7
+  /verif/tools/eval_seed.sh $id $WT $d/patch.diff > $WT/eval_$name.log 2>&1
+  grep -v "^checks.py" $WT/eval_$name.log | cut -c1-260 | grep -E "pinned tests|^  C|PATCH|harness-failure" | head -4
+  grep -E "quick:|check-exit" $WT/eval_$name.log | cut -c1-200
 done
